@@ -14,7 +14,7 @@ from ..gen import strategies as S
 ID = "C12"
 LEVEL = "exploration"
 RULE = ("histories: generated programs of 4-25 steps over a pool of 3-5 notebooks (related by edit scripts; metadata / JSON outputs whose "
-        "value at one path is a list of lists in one notebook and a list of objects in another), steps = diff(i,j), merge(b,l,r,strategy), "
+        "value at one path is a list of lists in one notebook and a list of objects - or a scalar of any type, or an object - in another), steps = diff(i,j), merge(b,l,r,strategy), "
         "set_notebook_diff_targets(six booleans), set_notebook_diff_ignores({path: True|False}), reset_notebook_differ(), and flag parsing "
         "through the real nbdiff parser + process_diff_flags. The whole program runs in ONE process forked from a pristine fork server "
         "(nbdime imported, never called); every diff/merge step is compared with the same call in ANOTHER fresh fork that first replays only "
@@ -62,15 +62,20 @@ def precheck(case):
     return None
 
 
+# the value at /metadata/grid over the pool: the list shapes of the generator plus scalars of every type and objects, so that one
+# path holds a number (string, bool, null) in one call of the history and a changed object or list in a later one
+GRID_SHAPES = N.SHAPES + [3, 4, 2.5, "s", "t", True, None, {"k": 1}, {"k": 2, "j": [1]}, {"k": {"a": 1}}, {"k": {"a": 2}, "j": [1]}]
+
+
 @st.composite
 def program(draw, tier):
     base = draw(N.notebook(max_cells=4, min_cells=1))
     # make sure the list-of-lists / list-of-objects shapes meet at one path
-    base["metadata"]["grid"] = copy.deepcopy(draw(st.sampled_from(N.SHAPES)))
+    base["metadata"]["grid"] = copy.deepcopy(draw(st.sampled_from(GRID_SHAPES)))
     pool = [base]
     for k in range(draw(st.integers(2, 4))):
         nb = draw(N.edit_notebook(pool[draw(st.integers(0, len(pool) - 1))], "P%d" % k, max_steps=3, min_steps=1))
-        nb["metadata"]["grid"] = copy.deepcopy(draw(st.sampled_from(N.SHAPES)))
+        nb["metadata"]["grid"] = copy.deepcopy(draw(st.sampled_from(GRID_SHAPES)))
         pool.append(nb)
     if draw(st.sampled_from(range(6))) == 3:
         # a notebook whose metadata has well over a thousand distinct paths (ipywidgets state of a few hundred models), and an edit of it
@@ -78,7 +83,7 @@ def program(draw, tier):
         wide["metadata"]["widgets"] = {"model_%03d" % i: {"model_name": "SliderModel", "state": {"value": i % 7, "description": "s%d" % i}} for i in range(400)}
         wide2 = copy.deepcopy(wide)
         wide2["metadata"]["widgets"]["model_007"]["state"]["value"] = 99
-        wide2["metadata"]["grid"] = copy.deepcopy(draw(st.sampled_from(N.SHAPES)))
+        wide2["metadata"]["grid"] = copy.deepcopy(draw(st.sampled_from(GRID_SHAPES)))
         # ... and a copy of the first notebook that differs from it in cell metadata only
         cm = copy.deepcopy(base)
         for c in cm["cells"]:
